@@ -20,6 +20,10 @@ HARNESSES = [
     dict(name="sampling", src="props/sampling.cpp", variant="plain"),
     dict(name="opaque", src="props/opaque.cpp", variant="plain"),
     dict(name="gradients", src="props/gradients.cpp", variant="plain"),
+    dict(name="glyphs", src="props/glyphs.cpp", variant="plain"),
+    dict(name="glyphs_asan", src="props/glyphs.cpp", variant="asan"),
+    dict(name="glyphs_small", src="props/glyphs.cpp", variant="asan_smallglyph",
+         cflags=["-DPIXMAN_VERIF_GLYPH_HIGH_WATER=8", "-DPIXMAN_VERIF_GLYPH_LOW_WATER=4"]),
     dict(name="gradients_asan", src="props/gradients.cpp", variant="asan"),
     dict(name="oob_asan", src="props/oob.cpp", variant="asan"),
     dict(name="fz_oob", src="props/oob.cpp", variant="asan", kind="fuzz", cflags=["-DVF_FUZZ", '-DVF_FUZZ_PROP="oob"']),
@@ -345,4 +349,34 @@ CHECKS["C13"] = dict(
     assumptions=["orientation conventions (conical: t = 1 - (atan2(dy,dx) + angle)/2pi) are taken from the library's documentation comments",
                  "a relative error of 2e-5 in t is allowed on top of the position uncertainty (t is carried in 16.16 and evaluated in single precision)",
                  "under REPEAT_NONE, t inside [0,1] but before the first / after the last stop is not asserted (the statement names two neighbouring stops; there is only one)"],
+)
+
+CHECKS["C17"] = dict(
+    level="exploration",
+    rule=("(cache) rapidcheck histories of freeze / thaw / insert / lookup / remove / draw / insert_block / remove_block over a key "
+          "pool whose (font,glyph) sums collide, against a model map + recency list: lookup is non-NULL exactly for model keys and "
+          "returns the entry insert returned; insert fails exactly at capacity; the caller's image is scribbled and destroyed after "
+          "insertion and the entry must still draw like the inserted image (and report its extents); after a thaw to zero the "
+          "survivors must be a most-recently-used prefix: all (never more than the high-water mark), the low-water count, or none "
+          "(only if more removals/evictions than the high-water mark happened since the table was last cleared); every call returns "
+          "within a 10 s watchdog. Run on the hook build with a 16-slot table (HIGH 8, LOW 4: full table, tombstone build-up and "
+          "collisions within a few commands) under ASan, on the real constants, and (bigcache) at the real capacity of 32768. "
+          "(draw) 1-12 glyphs of a8/a1/a4/a8r8g8b8/x8r8g8b8/r3g3b2/a8b8g8r8/b8g8r8a8/a4r4g4b4 at positions partly/wholly outside, "
+          "8 destination formats with multi-box clips, all operators, solid/bits/gradient sources: composite_glyphs_no_mask must "
+          "equal per-glyph composite32 with a copy of the glyph (component alpha iff the format has A and RGB), composite_glyphs "
+          "must equal ADD-accumulating (white IN glyph) into a zeroed a8/a1/a4/a8r8g8b8 mask and one composite32, bit for bit on "
+          "defined bits. Non-trivial = a thaw that evicts, a full table, or removals among >= 3 entries (cache); overlapping "
+          "glyphs of >= 2 formats (draw)."),
+    jobs=[
+        dict(harness="glyphs_small", prop="cache", cases=T(6000, 100000), procs=T(4, 8), args=["--watchdog", "10"]),
+        dict(harness="glyphs", prop="cache", cases=T(4000, 60000), procs=T(2, 4), args=["--watchdog", "10"]),
+        dict(harness="glyphs", prop="bigcache", cases=T(2, 8), procs=T(3, 8), args=["--watchdog", "120"]),
+        dict(harness="glyphs", prop="draw", cases=T(8000, 150000), procs=T(4, 8)),
+        dict(harness="glyphs_asan", prop="draw", cases=T(2500, 50000), procs=T(2, 4)),
+    ],
+    floor=T(40000, 600000), nt_floor=T(10000, 150000),
+    assumptions=["callers look a key up before inserting it (duplicate inserts are not generated) and insert only into a frozen cache",
+                 "entries evicted by a thaw leave tombstones like removed ones; 'above the high-water mark' counts glyphs plus tombstones, as the implementation documents (it then dumps the whole table)",
+                 "mask formats for composite_glyphs are the ones pixman_glyph_get_mask_format can return (a1, a4, a8, a8r8g8b8)",
+                 "the small-table build differs from the shipped one only in the two constants (hook 3)"],
 )
